@@ -17,6 +17,7 @@ import Mahotas.Proofs.C19Entropy
 import Mahotas.Proofs.C19IntegralRing
 import Mahotas.Proofs.C19Tas
 import Mahotas.Proofs.C19TasNorm
+import Mahotas.Proofs.C19HaralickQ
 import Mathlib.Data.ZMod.Basic
 namespace Mahotas.C19
 open Mahotas Mahotas.Generated
@@ -570,3 +571,60 @@ example :
     C19Tas.ctas (Nat.cast : Nat → Rat) [2, 3] b = [2 / 5, 1 / 5, 2 / 5, 0, 0, 0, 0, 0, 0] := by
   decide +kernel
 example : (C19Tas.ctasCounts [2, 2, 2] (fun p => p == [0, 0, 0])).sum = 7 := by decide +kernel
+
+/-- **haralick options `ignore_zeros`, `distance`, 3-D directions on the count matrix.** For every image (rank 2 or 3
+or any other) with values in `[0, m)`, every direction index `dir`, every `distance` and all levels `a, b < m`: the matrix
+the driver normalises for `haralick(f, ignore_zeros=True, distance=dist)` — `stripZeros` (`cmat[0] = 0; cmat[:,0] = 0`)
+of the symmetric fold of the `_texture.cpp` scan with the offset `direction nd dir dist` — has entry `(a, b)` equal to
+0 when `a = 0` or `b = 0`, and otherwise to the number of ordered pixel pairs `(p, p ± dist·δ_dir)` inside the image
+with values `(a, b)`: the co-occurrence matrix with row and column 0 removed, of the direction vector scaled by the
+distance (`δ_dir` = row `dir` of the extracted `_2d_deltas` / `_3d_deltas`, 4 / 13 rows). -/
+theorem C19_haralick_ignore_zeros_distance (m : Nat) (im : Img Int) (dir : Nat) (dist : Int)
+    (hv : ∀ p, 0 ≤ im.getD p 0 ∧ im.getD p 0 < (m : Int)) (a b : Nat) (ha : a < m) (hb : b < m) :
+    direction im.shape.length dir dist
+      = ((if im.shape.length == 2 then deltas2d else deltas3d).getD dir []).map (· * dist) ∧
+    (stripZeros m (symFold m (coocModel m im (direction im.shape.length dir dist))).toList).getD (a * m + b) 0
+      = (if a = 0 ∨ b = 0 then 0
+         else coocSym im.shape (fun p => im.getD p 0) (direction im.shape.length dir dist) a b) ∧
+    deltas2d.length = 4 ∧ deltas3d.length = 13 := by
+  refine ⟨rfl, ?_, by decide, by decide⟩
+  rw [stripZeros_getD m _ a b ha hb]
+  split
+  · rfl
+  · rw [← (C19_cooc_counts m im _ hv).2.2 a b ha hb |>.2, Array.getD_eq_getD_getElem?, List.getD_eq_getElem?_getD,
+      Array.getElem?_toList]
+
+/-- **haralick, 14th feature: Haralick's matrix `Q`.** Over any ordered field, for every `m × m` count matrix with a
+non-zero total and `p = c/Σc`: the model's `Q(i,j) = Σ_k p(i,k) p(j,k) / (p_x(i) p_y(k))` (terms of empty rows/columns
+dropped; the driver evaluates the same definition at `Float`) has non-negative entries; every row `i` whose marginal
+`p_x(i)` is not zero sums to 1 — `Q·1 = 1` on the occupied levels, so 1 is an eigenvalue of `Q` (of a non-negative
+row-stochastic matrix: the largest one, which is why feature 14 takes the *second* largest); and `Q` is reversible with
+respect to the row marginal, `p_x(i)·Q(i,j) = p_x(j)·Q(j,i)`, i.e. `Q` is similar to the symmetric matrix whose
+eigenvalues `texture.py` computes, so its eigenvalues are real. (No eigenvalue algorithm is modelled: the square root of
+the second largest eigenvalue of the model's `Q` is taken numerically by the harness and compared with the real output.) -/
+theorem C19_haralick_Q {α : Type} [Field α] [LinearOrder α] [IsStrictOrderedRing α]
+    (m : Nat) (c : List Nat) (hlen : c.length = m * m) (hT : c.sum ≠ 0) :
+    let P := matAt (0 : α) m (normMat (Nat.cast : Nat → α) c)
+    (∀ i < m, ∀ j < m, 0 ≤ qMatG (0 : α) m P i j) ∧
+    (∀ i < m, (∑ l ∈ Finset.range m, P i l) ≠ 0 → ∑ j ∈ Finset.range m, qMatG (0 : α) m P i j = 1) ∧
+    (∀ i < m, ∀ j < m, (∑ l ∈ Finset.range m, P i l) * qMatG (0 : α) m P i j
+        = (∑ l ∈ Finset.range m, P j l) * qMatG (0 : α) m P j i) ∧
+    (∀ i < m, (rowSumG (0 : α) m P).getD i 0 = ∑ l ∈ Finset.range m, P i l) := by
+  intro P
+  have hP : ∀ i < m, ∀ j < m, 0 ≤ P i j := fun i _ j _ => normMat_nonneg c _
+  have _ := hlen; have _ := hT
+  exact ⟨fun i hi j hj => qMat_nonneg m P hP i j hi hj, fun i hi hr => qMat_row_sum m P hP i hi hr,
+    fun i hi j hj => qMat_reversible m P hP i j hi hj, fun i hi => rowSum_getD m P i hi⟩
+
+/-- the count matrix `[[1,2],[2,3]]`: `Q = [[17/45, 28/45], [28/75, 47/75]]` (rows sum to 1, `3·(28/45) = 5·(28/75)`);
+    a matrix with an empty level keeps a zero row -/
+example :
+    let P := matAt (0 : Rat) 2 (normMat (Nat.cast : Nat → Rat) [1, 2, 2, 3])
+    (allPairs 2).map (fun ij => qMatG (0 : Rat) 2 P ij.1 ij.2) = [17 / 45, 28 / 45, 28 / 75, 47 / 75] := by
+  decide +kernel
+example :
+    let P := matAt (0 : Rat) 2 (normMat (Nat.cast : Nat → Rat) [0, 0, 0, 3])
+    (allPairs 2).map (fun ij => qMatG (0 : Rat) 2 P ij.1 ij.2) = [0, 0, 0, 1] := by
+  decide +kernel
+example : stripZeros 2 [5, 1, 1, 3] = [0, 0, 0, 3] ∧ direction 2 3 2 = [2, -2] ∧ direction 3 12 3 = [3, -3, -3] := by
+  decide +kernel
